@@ -26,7 +26,7 @@
 #define OP1B 0          /* a second mutation applied before the run, after OP1 */
 #endif
 #ifndef FILLTIE
-#define FILLTIE 0       /* 1: the filler events all share one instant (start + 1) and have patterned priorities with ties */
+#define FILLTIE 0       /* 1: the filler events all share one instant (start + 1) and have patterned priorities with ties; 2, 3: patterned times (heap shapes with parents after their children in insertion order) */
 #endif
 #define MAXEV (NEV + 3 + FILL)
 
@@ -211,7 +211,9 @@ void h_c01(void)
         add_event(start + dt, p);
     }
     for (int i = 0; i < FILL; i++) {
-        if (FILLTIE) add_event(start + 1.0, (int64_t)((i * 3) % 5));
+        if (FILLTIE == 2) add_event(start + 1.0 + (double)((i * 5) % 7), (int64_t)(i % 3));      /* patterned distinct times: unsorted insertion order */
+        else if (FILLTIE == 3) { static const double tt[9] = { 1, 2, 10, 12, 3, 4, 11, 5, 13 }; add_event(start + tt[i % 9], 0); }
+        else if (FILLTIE) add_event(start + 1.0, (int64_t)((i * 3) % 5));
         else add_event(start + 2000.0 + i, (int64_t)i);
     }
     check_queries("after-schedule");
